@@ -38,7 +38,8 @@ func (p *rawPath) Type() path.Type                { return p.t }
 // pkt is the abstract parsed packet + the oracle inputs of one srv.handle op.
 type pkt struct {
 	// configuration (which child, which socket)
-	mode string // srv | srvkeys | disp
+	mode string // srv | srvkeys | srvgrpc | disp
+	kep  int64  // mode srvgrpc: the DRKey epoch the oracle key belongs to (set when the packet is built / sent)
 	mock int    // 1: child runs with USE_MOCK_KEYS=true
 	sock string // svc | eh
 	svc  int    // service port of the child
@@ -147,7 +148,7 @@ func parseOp(toks []string) (*pkt, bool) {
 		okAll = false
 		return ""
 	}
-	p.mode = enum("mode", "srv", "srvkeys", "disp")
+	p.mode = enum("mode", "srv", "srvkeys", "srvgrpc", "disp")
 	p.mock = int(num("mock", 0, 1))
 	p.sock = enum("sock", "svc", "eh")
 	p.svc = int(num("svc", 1, 65535))
@@ -211,7 +212,7 @@ func parseOp(toks []string) (*pkt, bool) {
 	if p.mode == "disp" && (p.sock != "eh" || p.mock != 0) {
 		return nil, false
 	}
-	if p.mode == "srvkeys" && p.mock != 0 {
+	if (p.mode == "srvkeys" || p.mode == "srvgrpc") && p.mock != 0 {
 		return nil, false
 	}
 	if p.mac != "err" {
@@ -316,6 +317,9 @@ var zeroKey = make([]byte, 16)
 func (p *pkt) key() ([]byte, error) {
 	if p.mode == "srvkeys" {
 		return hostHostKey(p.dia, p.sia, p.da, p.sa)
+	}
+	if p.mode == "srvgrpc" {
+		return hostHostKeyEpoch(p.dia, p.sia, p.da, p.sa, p.kep)
 	}
 	return zeroKey, nil
 }
